@@ -26,6 +26,9 @@ class FlatMapFuture(MapFuture):
 
         self.__flattened = True
         self._map_fn = lambda x: x
+        # error_fn applies to the original future only (and was not called if we
+        # got here via map_fn); the flattened future's failure propagates as is.
+        self._error_fn = None
         self._set_delegate(result)
 
 
